@@ -1,3 +1,8 @@
+//! Note on memory limits: libFuzzer's rss limit looks at getrusage().ru_maxrss, which a child inherits
+//! from its parent across fork+exec — after a thorough run (several GB of bookkeeping in gv) every
+//! fuzzer reported "out-of-memory" at start-up. The rss limit is therefore off; single allocations
+//! are capped with -malloc_limit_mb instead.
+//!
 //! Shared driver for the cargo-fuzz targets: runs `jobs` libFuzzer processes
 //! on the committed seed corpus, counts executions into the evidence and
 //! returns the crash artifacts (time / memory budget hits are reported as
@@ -46,7 +51,7 @@ pub fn campaign(ctx: &mut Ctx, target: &str, dict: Option<&str>, max_len: usize,
         if !seeds.is_empty() {
             cmd.arg(&corpus);
         }
-        cmd.args([format!("-runs={}", runs / jobs as u64), format!("-seed={}", (ctx.seed.wrapping_mul(31).wrapping_add(j as u64) % 4_000_000_000) + 1), format!("-max_len={}", max_len), "-len_control=0".into(), "-print_final_stats=1".into(), "-timeout=20".into(), "-rss_limit_mb=2048".into(), format!("-artifact_prefix={}/", art.display())]);
+        cmd.args([format!("-runs={}", runs / jobs as u64), format!("-seed={}", (ctx.seed.wrapping_mul(31).wrapping_add(j as u64) % 4_000_000_000) + 1), format!("-max_len={}", max_len), "-len_control=0".into(), "-print_final_stats=1".into(), "-timeout=20".into(), "-rss_limit_mb=0".into(), "-malloc_limit_mb=1024".into(), format!("-artifact_prefix={}/", art.display())]);
         if let Some(d) = dict {
             cmd.arg(format!("-dict={}", fuzz_dir().join(d).display()));
         }
@@ -86,6 +91,11 @@ pub fn campaign(ctx: &mut Ctx, target: &str, dict: Option<&str>, max_len: usize,
     let arts: Vec<PathBuf> = std::fs::read_dir(&art).map(|r| r.filter_map(|e| e.ok()).map(|e| e.path()).collect()).unwrap_or_default();
     for a in arts {
         let name = a.file_name().map(|x| x.to_string_lossy().to_string()).unwrap_or_default();
+        if name.starts_with("oom-") && target == "deser" {
+            // a small document that asks for a giant allocation: let the caller judge it in a fresh process
+            out.push(a);
+            continue;
+        }
         if name.starts_with("timeout-") || name.starts_with("oom-") || name.starts_with("slow-unit-") {
             ctx.inconclusive.push(format!("libFuzzer reported {} (kept at {}); a time/memory budget hit is not a violation", name, a.display()));
             continue;
